@@ -41,9 +41,14 @@ var toolNames = []string{"goimports", "dart", "prettier", "pg_format"}
 var states = []string{installed, missing, probeFails, runFails}
 
 type request struct {
-	Format int    `json:"format"` // generator.Format value
+	Format int    `json:"format"` // generator.Format value; envChange = not a request: the caller changes $PATH
 	File   string `json:"file"`
 }
+
+// envChange marks a step of a caller that is not a format request: the
+// process environment changes ($PATH gets one more, empty, directory) while
+// the cache is in use. The cache's answers are per cache, not per environment.
+const envChange = -1
 
 type params struct {
 	World     map[string]string `json:"world"`
@@ -149,14 +154,25 @@ func (c20) Generate(env *kernel.Env, r *kernel.Rand, index int) any {
 			p.Chatty[t] = true
 		}
 	}
+	if p.Entry == "formatfile" && r.Chance(1, 4) {
+		ci := r.Intn(len(p.Callers))
+		at := r.Range(0, len(p.Callers[ci]))
+		c := append([]request(nil), p.Callers[ci][:at]...)
+		c = append(c, request{Format: envChange, File: fmt.Sprintf("extra-bin-%d", r.Intn(100))})
+		p.Callers[ci] = append(c, p.Callers[ci][at:]...)
+	}
 	// a second batch: some requests name a file that was already submitted,
 	// with the same generated content (every request is formatted again)
 	if p.Entry == "formatfile" && r.Chance(1, 3) {
 		var all []request
 		for _, c := range p.Callers {
-			all = append(all, c...)
+			for _, q := range c {
+				if q.Format != envChange {
+					all = append(all, q)
+				}
+			}
 		}
-		for i := r.Range(1, 2); i > 0; i-- {
+		for i := r.Range(1, 2); i > 0 && len(all) > 0; i-- {
 			ci := r.Intn(len(p.Callers))
 			p.Callers[ci] = append(p.Callers[ci], kernel.Pick(r, all))
 		}
@@ -342,11 +358,15 @@ func (c20) Execute(env *kernel.Env, raw json.RawMessage, ch *kernel.Choices) *ke
 	}
 	quiet()
 	out := &kernel.Outcome{}
+	savedPath := os.Getenv("PATH")
+	defer os.Setenv("PATH", savedPath)
 	w := &world{p: &p, files: map[string]bool{}, formatted: map[string]int{}, out: out}
 	var results []*reqResult
 	for _, c := range p.Callers {
 		for _, r := range c {
-			w.files[r.File] = true
+			if r.Format != envChange {
+				w.files[r.File] = true
+			}
 			results = append(results, &reqResult{Req: r})
 		}
 	}
@@ -410,6 +430,12 @@ func (c20) Execute(env *kernel.Env, raw json.RawMessage, ch *kernel.Choices) *ke
 				k += len(reqs)
 				verifsim.Go(func() {
 					for _, r := range mine {
+						if r.Req.Format == envChange {
+							os.Setenv("PATH", os.Getenv("PATH")+string(os.PathListSeparator)+filepath.Join(outDir, r.Req.File))
+							out.Fault("path_changed_while_cache_in_use")
+							r.Returned = true
+							continue
+						}
 						// like the command: write the generated code, then format the file
 						path := filepath.Join(outDir, r.Req.File)
 						if werr := os.WriteFile(path, []byte("generated code of "+r.Req.File+"\n"), 0o644); werr != nil {
@@ -495,6 +521,9 @@ func (c20) Execute(env *kernel.Env, raw json.RawMessage, ch *kernel.Choices) *ke
 		nreq[r.Req.File]++
 	}
 	for _, r := range results {
+		if r.Req.Format == envChange {
+			continue
+		}
 		t := toolFor(r.Req.Format)
 		runsRight, runsAny := 0, 0
 		for _, e := range w.events {
